@@ -33,7 +33,21 @@ History format (JSON-able, self-contained, replayable):
                                          write (phase 'write') of the run, or at
                                          its end if the run gets there first
     ['Prune', kind, max, cut]
+    ['Read', kind]                       extension (readers): every known instance /
+                                         server is read through the code's readers by a
+                                         third client, atomically at this point - also as
+                                         an injected step, i.e. between two writes of a
+                                         run.  Logged as line['reads'] = [{kind, at (writes
+                                         of the run applied so far), items: [{name, n, loop}]}]:
+                                         n = how often the raw readers return the event
+                                         (download_batch over every snapshot + the live
+                                         children; the api/state query + /finished children),
+                                         loop = how often the real AppTraceLoop /
+                                         ServerTraceLoop (run(snapshot=True), which de-duplicates)
+                                         hands it to its handler; for /finished loop = 1 iff
+                                         list_traces returns the name.
 """
+import collections
 import os
 import shutil
 import sqlite3
@@ -98,9 +112,12 @@ class World:
     # -- environment -------------------------------------------------------
     def env_step(self, step):
         """Returns dict(added={kind: [names]}, unsched=[...], newsched=[...], tick=ms)."""
-        out = dict(added={k: [] for k in KINDS}, unsched=[], newsched=[], tick=0, touched=[])
+        out = dict(added={k: [] for k in KINDS}, unsched=[], newsched=[], tick=0, touched=[],
+                   reads=[])
         name = step[0]
-        if name == 'SetNow':
+        if name == 'Read':
+            out['reads'].append(dict(kind=step[1], at=0, items=self.read(step[1])))
+        elif name == 'SetNow':
             if step[1] < self.now_ms:
                 raise tlc.MachineryError('clock must be monotone')
             out['tick'] = step[1] - self.now_ms
@@ -147,6 +164,51 @@ class World:
             raise tlc.MachineryError('bad env step %r' % (step,))
         return out
 
+    # -- extension: the readers ----------------------------------------------
+    def read(self, kind):
+        """What a client sees that reads every known object of `kind` right now."""
+        zk = self.reader
+        items = []
+        if kind == 'finished':
+            raw = collections.Counter(zk.get_children(z.FINISHED))
+            for node in zk.get_children(z.FINISHED_HISTORY):
+                data, _ = zk.get(z.path.finished_history(node))
+                fd, fname = tempfile.mkstemp(prefix='verif-c18-rd-')
+                try:
+                    with os.fdopen(fd, 'wb') as f:
+                        f.write(zlib.decompress(data))
+                    conn = sqlite3.connect(fname)
+                    raw.update(r[0] for r in conn.execute(FINISHED_READER_SQL))
+                    conn.close()
+                finally:
+                    os.unlink(fname)
+            listed = set(app_zk.list_traces(zk, '*'))
+            for name in sorted(raw):
+                items.append(dict(name=name, n=raw[name], loop=1 if name in listed else 0))
+            return items
+        mod, table, hist = ((app_zk, TABLE['trace'], z.TRACE_HISTORY) if kind == 'trace'
+                            else (server_zk, TABLE['server'], z.SERVER_TRACE_HISTORY))
+        objs = sorted(o for o in self.universe if ('#' in o) == (kind == 'trace'))
+        for obj in objs:
+            raw = collections.Counter()
+            for node in zk.get_children(hist):
+                raw.update(_zk.download_batch(zk, hist + '/' + node, table, obj))
+            shard = z.path.trace(obj) if kind == 'trace' else z.path.server_trace(obj)
+            if zk.exists(shard):
+                raw.update(e for e in zk.get_children(shard) if e.startswith(obj + ','))
+            seen = collections.Counter()
+            base = app_zk.AppTraceLoop if kind == 'trace' else server_zk.ServerTraceLoop
+
+            class Loop(base):            # records what the loop hands to its handler
+                def _process_event(self, object_name, timestamp, source, event_type,
+                                   event_data, ctx):
+                    seen[','.join((object_name, timestamp, source, event_type, event_data))] += 1
+
+            Loop(zk, obj, None).run(snapshot=True)
+            for name in sorted(set(raw) | set(seen)):
+                items.append(dict(name=name, n=raw[name], loop=seen[name]))
+        return items
+
     def _finished_table(self):
         return {n: (self.store.nodes[z.path.finished(n)].data,
                     self.store.nodes[z.path.finished(n)].mtime)
@@ -157,7 +219,8 @@ class World:
         """Run fn() as the archiver with crash injection and mid-run env steps."""
         store = self.store
         plan = sorted(([p, j, s] for p, j, s in (inject or [])), key=lambda x: (x[0] != 'list', x[1]))
-        done = dict(added={k: [] for k in KINDS}, unsched=[], newsched=[], tick=0, touched=[])
+        done = dict(added={k: [] for k in KINDS}, unsched=[], newsched=[], tick=0, touched=[],
+                    reads=[])
         state = {'listed': 0}
 
         def fire(pred):
@@ -175,6 +238,9 @@ class World:
                     done['unsched'] += r['unsched']
                     done['newsched'] += r['newsched']
                     done['touched'] += r['touched']
+                    for rd in r['reads']:
+                        rd['at'] = w          # archiver writes applied so far
+                        done['reads'].append(rd)
                     done['tick'] += r['tick']
                 else:
                     rest.append(item)
@@ -335,9 +401,9 @@ def _line(ev, step, res, post):
                 max=step[2] if ev == 'Prune' else 0,
                 cut=(step[4] if ev == 'Archive' else step[3]) if ev in ('Archive', 'Prune') else 0,
                 crashed=bool(res.get('crashed', False)), nw=int(res.get('nw', 0)),
-                injected=bool(ev == 'Archive' and step[5]),
+                injected=bool(ev == 'Archive' and any(it[2][0] != 'Read' for it in step[5])),
                 added=res['added'], unsched=res['unsched'], newsched=res['newsched'],
-                touched=res['touched'], tick=res['tick'])
+                touched=res['touched'], tick=res['tick'], reads=res.get('reads', []))
     return line
 
 
